@@ -56,6 +56,13 @@ structure Cfg where
   /-- history-pruner migration variant: a cut-off of block 0 is "nothing to prune" (`true`, proposed fix)
   or runs into `GetBlockHeaderByNumber(oldestBlockKept-1)` with `0-1` (`false`, pinned commit) -/
   migZeroNoop : Bool := false
+  /-- new-head handler variant: an event for a block above the current chain height (the block was reverted
+  while the event waited in the 1-slot feed buffer) is dropped (`true`, proposed fix
+  C16-stale-new-head-event.diff) or trusted (`false`, the code at the pinned commit) -/
+  l2Clamps : Bool := false
+  /-- header timestamp of block `n` of the chain the node follows (the blocks are manufactured once; the
+  unpruned twin holds them) -/
+  ts : Nat → Nat := fun _ => 0
 
 /-- `applyTimeFloor`: `if p.minAge == 0 { return standardFloor }; return min(p.latestSampledHeight, standardFloor)` -/
 def applyTimeFloor (c : Cfg) (sampled standardFloor : UInt64) : UInt64 :=
@@ -138,6 +145,18 @@ def sampleHeight (ts : Nat → Nat) (sampled height cutoff : Nat) : Nat :=
   match findOldestAtOrAfter ts sampled height cutoff with
   | none => height
   | some f => f
+
+/-- The binary search reads the header timestamp of every block it probes
+(`GetBlockHeaderTimestampByNumber`): are all of them there? Same loop, same probes. -/
+def probesPresent (hdr : Nat → Bool) (ts : Nat → Nat) (cutoff : Nat) : Nat → Nat → Nat → Bool
+  | 0, _, _ => true
+  | fuel + 1, low, high =>
+    if low < high then
+      let mid := low + (high - low) / 2
+      hdr mid &&
+        (if ts mid < cutoff then probesPresent hdr ts cutoff fuel (mid + 1) high
+         else probesPresent hdr ts cutoff fuel low mid)
+    else true
 
 /-! ## The database -/
 
@@ -227,6 +246,9 @@ structure St where
   db : Db
   mem : Mem
   job : Job
+  /-- the wall clock, as the pruner uses it: `now - minAge` in unix seconds. Blocks with a timestamp at or
+  after it are younger than the minimum age. It only moves forward (`Op.advance`). -/
+  cutoff : Nat := 0
 
 def St.init : St := { db := Db.empty, mem := {}, job := .idle }
 
@@ -245,8 +267,8 @@ inductive Op
   | writeL1 (n : UInt64)
   /-- the pruner receives an L1-head event -/
   | evL1 (n : UInt64)
-  /-- the pruner receives a new-L2-head event for block `n`; `within` = its timestamp is inside the min-age window -/
-  | evL2 (n : UInt64) (within : Bool)
+  /-- the pruner receives a new-L2-head event for block `n` (carrying that block's header timestamp) -/
+  | evL2 (n : UInt64)
   /-- the prune loop processes `k` more blocks and then writes its batch (rotation or final hash-keyed write) -/
   | flush (k : Nat)
   /-- the prune call ends at the current `cur` (`cur = end` or context cancelled): trailing range-delete write, `OnPrune` -/
@@ -255,14 +277,16 @@ inductive Op
   | fail
   /-- the process dies and a new one starts on the surviving database; `seed` = the new `RetentionFloor` is seeded (`Seed`) -/
   | crash (seed : Bool)
-  /-- the min-age sample is refreshed (`seedFloor` / `sampleHeight`) to `s` -/
-  | sample (s : UInt64)
+  /-- the floor ticker fires: `sampleHeight` refreshes the min-age sample (only runs with `minAge > 0`) -/
+  | tick
+  /-- time passes: the cut-off `now - minAge` advances by `d` seconds -/
+  | advance (d : Nat)
   /-- a node start that runs the one-time history-pruner migration (`migration/historyprunner`) to
   completion — interrupted runs are resumed / repeated until it is through, see `migrateDb` — and then
-  starts the process (seeded floor). `minAgeFloor` = result of its own min-age search; `unchangedSlot` = the
+  starts the process (seeded floor). `unchangedSlot` = the
   state diff of some retained block names a key without a legacy history entry (zero written to an empty slot;
   on the new state backend: any key). -/
-  | migrate (minAgeFloor : Option UInt64) (unchangedSlot : Bool)
+  | migrate (unchangedSlot : Bool)
   deriving DecidableEq, Repr
 
 inductive Out
@@ -354,9 +378,36 @@ def migrateReadsOk (d : Db) (keep h : Nat) : Bool :=
   (List.range (h + 1 - keep)).all (fun j => d.has .su (keep + j) && d.has .txs (keep + j) && d.has .hist (keep + j))
     && d.has .hdr (keep - 1)
 
-/-- Restart: every in-memory field is rebuilt; the floor is (optionally) seeded from the database. -/
-def restartMem (d : Db) (seed : Bool) : Mem :=
-  { floorState := if seed then seedState 0 (UInt64.ofNat ((oldest d).getD 0)) else 0 }
+/-- `sampleHeight` on the node: chain height missing → nothing; a probed header missing → error, the old
+sample stays; else the search result (`ErrNoBlockInWindow` → chain height). -/
+def sampleNode (c : Cfg) (d : Db) (cutoff : Nat) (sampled : UInt64) : UInt64 :=
+  match d.height with
+  | none => sampled
+  | some h =>
+    if sampled.toNat > h then UInt64.ofNat h      -- `lower > upper` → ErrNoBlockInWindow → chain height
+    else if probesPresent (d.has .hdr) c.ts cutoff (h + 1 - sampled.toNat + 1) sampled.toNat (h + 1) then
+      UInt64.ofNat (sampleHeight c.ts sampled.toNat h cutoff)
+    else sampled
+
+/-- `seedFloor` (start of `Run`, only with `minAge > 0`): `latestSampledHeight = OldestRetainedBlock`, then
+`sampleHeight`; an empty database leaves 0. -/
+def seedSample (c : Cfg) (d : Db) (cutoff : Nat) : UInt64 :=
+  if c.minAge then
+    match oldest d with
+    | none => 0
+    | some o => sampleNode c d cutoff (UInt64.ofNat o)
+  else 0
+
+/-- Restart: every in-memory field is rebuilt; the floor is (optionally) seeded from the database, the
+min-age sample is seeded by the new pruner. -/
+def restartMem (c : Cfg) (d : Db) (cutoff : Nat) (seed : Bool) : Mem :=
+  { floorState := if seed then seedState 0 (UInt64.ofNat ((oldest d).getD 0)) else 0,
+    sampled := seedSample c d cutoff }
+
+/-- The migration's own min-age search: `FindOldestBlockAtOrAfter(database, 0, pivot, now-minAge)`. -/
+def migMinAgeFloor (c : Cfg) (height : Nat) (l1 : UInt64) (cutoff : Nat) : Option UInt64 :=
+  let pivot := if l1.toNat ≤ height then l1.toNat else height
+  (findOldestAtOrAfter c.ts 0 pivot cutoff).map UInt64.ofNat
 
 def step (c : Cfg) (s : St) : Op → St × Out
   | .store =>
@@ -382,12 +433,17 @@ def step (c : Cfg) (s : St) : Op → St × Out
       match l1Keep c s.mem.sampled h n with
       | none => (s, .noop)
       | some keep => startPrune { s with mem := { s.mem with pending := 0 } } keep
-  | .evL2 n within =>
+  | .evL2 n =>
     match s.job, s.db.l1 with
     | .run .., _ => (s, .bad)
     | .idle, none => (s, .noop)
     | .idle, some l1 =>
-      if l2Guard c l1 n then (s, .noop)
+      -- `withinTimeWindow(block.Timestamp, minAge)`: the event's block is younger than the minimum age
+      let within := decide (s.cutoff ≤ c.ts n.toNat)
+      -- proposed fix: `if block.Number > chainHeight { return nil }` (chain height missing: nothing to prune)
+      let stale := c.l2Clamps && (match s.db.height with | none => true | some h => decide (h < n.toNat))
+      if stale then (s, .noop)
+      else if l2Guard c l1 n then (s, .noop)
       else
         let p := s.mem.pending + 1
         if p < c.l2PerPrune then ({ s with mem := { s.mem with pending := p } }, .noop)
@@ -410,35 +466,38 @@ def step (c : Cfg) (s : St) : Op → St × Out
       if first then (s, .bad)   -- the hash-keyed batch is always written before the call ends
       else
         let db := if c.fixed then s.db else (s.db.del (rangeDel cur)).pruneAgg cur
-        ({ db := db, mem := { s.mem with sampled := umax s.mem.sampled (UInt64.ofNat cur) }, job := .idle },
+        ({ s with db := db, mem := { s.mem with sampled := umax s.mem.sampled (UInt64.ofNat cur) }, job := .idle },
          .done (cur - start) cur)
   | .fail =>
     match s.job with
     | .idle => (s, .bad)
     | .run .. => ({ s with job := .idle }, .err)
-  | .crash seed => ({ db := s.db, mem := restartMem s.db seed, job := .idle }, .ok)
-  | .sample v => ({ s with mem := { s.mem with sampled := v } }, .ok)
-  | .migrate mf unchangedSlot =>
+  | .crash seed => ({ s with mem := restartMem c s.db s.cutoff seed, job := .idle }, .ok)
+  | .tick =>
+    if c.minAge then ({ s with mem := { s.mem with sampled := sampleNode c s.db s.cutoff s.mem.sampled } }, .ok)
+    else (s, .noop)
+  | .advance d => ({ s with cutoff := s.cutoff + d }, .ok)
+  | .migrate unchangedSlot =>
     match s.job, s.db.height, s.db.l1 with
     | .run .., _, _ => (s, .bad)
-    | .idle, none, _ => ({ s with mem := restartMem s.db true }, .noop)   -- "no chain data yet"
+    | .idle, none, _ => ({ s with mem := restartMem c s.db s.cutoff true }, .noop)   -- "no chain data yet"
     | .idle, some _, none => (s, .err)                                    -- `getting L1 head` fails, the node does not start
     | .idle, some h, some l1 =>
-      match migKeep c h l1 mf with
-      | none => ({ s with mem := restartMem s.db true }, .noop)
+      match migKeep c h l1 (migMinAgeFloor c h l1 s.cutoff) with
+      | none => ({ s with mem := restartMem c s.db s.cutoff true }, .noop)
       | some keep =>
         -- what `setupBeforeStager` has written by the time a later phase fails
         let afterSetup := (s.db.del (fun i m => rangeDel keep.toNat i m || i == .h2n || i == .txl || i == .l1m)).pruneAgg keep.toNat
         if keep = 0 then
-          if c.migZeroNoop then ({ s with mem := restartMem s.db true }, .noop)
+          if c.migZeroNoop then ({ s with mem := restartMem c s.db s.cutoff true }, .noop)
           -- `setupBeforeRestorer` reads the header of `oldestBlockKept - 1` = block 2^64-1: the migration
           -- fails after the lookup buckets were wiped, on every start
-          else ({ s with db := afterSetup, mem := restartMem afterSetup true }, .err)
+          else ({ s with db := afterSetup, mem := restartMem c afterSetup s.cutoff true }, .err)
         else if unchangedSlot && !c.migSkipsMissing then
-          ({ s with db := afterSetup, mem := restartMem afterSetup true }, .err)  -- stager: key not found
+          ({ s with db := afterSetup, mem := restartMem c afterSetup s.cutoff true }, .err)  -- stager: key not found
         else if migrateReadsOk s.db keep.toNat h then
           let db := migrateDb s.db keep.toNat h
-          ({ db := db, mem := restartMem db true, job := .idle }, .ok)
+          ({ s with db := db, mem := restartMem c db s.cutoff true, job := .idle }, .ok)
         else (s, .err)
 
 def run (c : Cfg) (s : St) : List Op → St
@@ -477,6 +536,10 @@ inductive Ans
   /-- a state reader was handed out, but history entries above the block are missing: a slot written in
   every block reads as it was after block `m ≠ b` -/
   | stale (m : Nat)
+  /-- a reader was handed out and `ContractStorageLastUpdatedBlock` answers without error, but the history
+  entry that records the slot's last write is gone: an older write's block (or 0 = "never written") is
+  reported instead -/
+  | lost
   deriving DecidableEq, Repr
 
 /-- Every history entry logged in `(b, h]` is present: the legacy reader is exact at `b` for every key. -/
@@ -558,6 +621,46 @@ def headState (c : Cfg) (s : St) : Ans :=
   | none => .notfound
   | some h => if c.legacy || s.db.has .hdr h then .ok else .notfound
 
+/-! ### `ContractStorageLastUpdatedBlock` (core.StateReader; served by `starknet_getStorageAt`)
+
+Legacy backend (`deprecatedstate.lastUpdatedBlockNumber`): scans the `DeprecatedContractStorageHistory`
+entries of the slot BACKWARDS from the reader's block (head reader: from 2^64-1) and answers the block number
+of the first entry it meets — the history entry a write logs at ITS OWN block. These are the entries the
+pruner deletes for every pruned block and the migration wipes. New backend: its own history buckets, never
+pruned. `lastWrite` = the block of the slot's last write at or below the reader's block. -/
+
+/-- The reader's answer for a slot last written at `lastWrite`. -/
+def lastUpdRead (c : Cfg) (d : Db) (lastWrite : Nat) : Ans :=
+  if !c.legacy then .ok else if d.has .hist lastWrite then .ok else .lost
+
+/-- Through `StateAtBlockNumber(n)` (same admission as `answer .stateAtNumber`), `lastWrite ≤ n`. -/
+def lastUpdAtNumber (c : Cfg) (s : St) (lastWrite n : Nat) : Ans :=
+  match answer c s .stateAtNumber n with
+  | .notfound => .notfound
+  | .pruned => .pruned
+  | _ => lastUpdRead c s.db lastWrite
+
+/-- Through `StateAtBlockHash(hash of n)`. -/
+def lastUpdAtHash (c : Cfg) (s : St) (lastWrite n : Nat) : Ans :=
+  match answer c s .stateAtHash n with
+  | .notfound => .notfound
+  | .pruned => .pruned
+  | _ => lastUpdRead c s.db lastWrite
+
+/-- Through `HeadState()`, `lastWrite ≤ head`. -/
+def lastUpdAtHead (c : Cfg) (s : St) (lastWrite : Nat) : Ans :=
+  match headState c s with
+  | .ok => lastUpdRead c s.db lastWrite
+  | a => a
+
+/-- A historical reader handed out EARLIER for block `b` (admitted then) and read NOW: the legacy reader
+(`deprecatedstate.NewHistory` over the live database) consults the retention floor only when it is opened;
+every later read scans whatever history entries are in the database at that moment. -/
+def heldRead (c : Cfg) (s : St) (b : Nat) : Ans :=
+  match s.db.height with
+  | none => .notfound
+  | some h => stateRead c s.db b h
+
 /-- The unpruned twin stores every block `≤ height` completely. -/
 def twinAnswer (height : Option Nat) (q : Q) (n : Nat) : Ans :=
   match height with
@@ -591,7 +694,9 @@ def interruptible (c : Cfg) : Job → Prop
 
 /-- The histories the property quantifies over. Everything is allowed at any time, except:
 * `revert` only while the head is above the floor ("reverted down to the floor");
-* a new-head event names a block that is on the local chain;
+* a new-head event names a block that is on the local chain — ONLY for the code at the pinned commit, which
+  trusts `block.Number` (`stale_new_head_event_prunes_the_head_before_<fix>`); with the proposed clamp
+  (`l2Clamps`) stale events for reverted blocks are legal;
 * the pruner runs with a seeded `RetentionFloor` (node.Run seeds it before the services start);
 * block numbers stay below 2^64;
 * (original code only) crash / write error not between two batch writes of one prune — the theorems
@@ -600,14 +705,15 @@ def Legal (c : Cfg) (s : St) : Op → Prop
   | .store => ∀ h, s.db.height = some h → h + 1 < 2 ^ 64
   | .revert => ∃ h, s.db.height = some h ∧ effFloor s < h
   | .evL1 _ => s.mem.floorState ≠ 0
-  | .evL2 n _ => s.mem.floorState ≠ 0 ∧ ∃ h, s.db.height = some h ∧ n.toNat ≤ h
+  | .evL2 n => s.mem.floorState ≠ 0 ∧ (c.l2Clamps = true ∨ ∃ h, s.db.height = some h ∧ n.toNat ≤ h)
   | .crash _ => interruptible c s.job
   | .fail => interruptible c s.job
   -- the one-time migration runs on a database no prune has touched above its cut-off; for the code at the
   -- pinned commit additionally: its cut-off is not block 0 and no retained block names an unchanged slot
   -- (see `migration_cutoff_zero_fails`, `migration_unchanged_slot_fails`)
-  | .migrate mf unchangedSlot => s.job = .idle ∧ (unchangedSlot = true → c.migSkipsMissing = true) ∧
-      ∀ h l1 keep, s.db.height = some h → s.db.l1 = some l1 → migKeep c h l1 mf = some keep →
+  | .migrate unchangedSlot => s.job = .idle ∧ (unchangedSlot = true → c.migSkipsMissing = true) ∧
+      ∀ h l1 keep, s.db.height = some h → s.db.l1 = some l1 →
+        migKeep c h l1 (migMinAgeFloor c h l1 s.cutoff) = some keep →
         (0 < keep.toNat ∨ c.migZeroNoop = true) ∧ max (lo s.db) s.mem.keepMax ≤ keep.toNat
   | _ => True
 
@@ -620,11 +726,11 @@ def allowed (c : Cfg) (s : St) : Op → Nat
     match s.db.height with
     | some h => min n.toNat h - c.retained.toNat
     | none => 0
-  | .evL2 n _ =>
+  | .evL2 n =>
     match s.db.l1 with
     | some l1 => min l1.toNat n.toNat - c.retained.toNat
     | none => 0
-  | .migrate _ _ =>
+  | .migrate _ =>
     match s.db.height, s.db.l1 with
     | some h, some l1 => min l1.toNat h - c.retained.toNat
     | _, _ => 0
